@@ -120,8 +120,28 @@ def parallel_lists(ctx, repo):
                 comps[n.targets[0].id] = (norm(lc.elt.value), norm(lc.elt.slice), norm(lc.generators[0].iter))
     ok = comps.get("glyphs") == ("glyphs", "i", "non_empty_indices") and comps.get("max_err") == ("max_err", "i", "non_empty_indices")
     ctx.ob("PAR", f.where, f"glyphs and max_err re-indexed alike: {comps}", ok, "" if ok else "after dropping empty glyphs the tolerances no longer line up with their masters")
-    pass_ = [c for c in calls_in(f.node) if call_name(c) == "_segments_to_quadratic"]
-    ok = len(pass_) == 1 and [norm(a) for a in pass_[0].args][:2] == ["segments", "max_err"]
+    # the conversion call may sit in a helper the per-location loop was extracted into: follow the tolerance argument through
+    from ..core import private_callees
+
+    def bound_arg(call, callee, param):
+        ps = [a.arg for a in callee.node.args.posonlyargs + callee.node.args.args]
+        if param in ps and ps.index(param) < len(call.args):
+            return call.args[ps.index(param)]
+        for kw in call.keywords:
+            if kw.arg == param:
+                return kw.value
+        return None
+
+    pass_ = []
+    for g in [f] + [h for h in private_callees(repo, f, depth=1) if h.node is not f.node]:
+        for c in calls_in(g.node):
+            if call_name(c) == "_segments_to_quadratic" and len(c.args) >= 2:
+                tol = c.args[1]
+                if g.node is not f.node and isinstance(tol, ast.Name):
+                    sites = [c2 for c2 in calls_in(f.node) if call_name(c2) == g.node.name]
+                    tol = bound_arg(sites[0], g, tol.id) if len(sites) == 1 else None
+                pass_.append((norm(c.args[0]), norm(tol) if tol is not None else None))
+    ok = len(pass_) == 1 and pass_[0] == ("segments", "max_err")
     ctx.ob("PAR", f.where, "per-location segments converted with the per-master tolerance list", ok)
     # lists filled side by side by .append and then passed together grow under the same conditions
     for q, fn in sorted(m.funcs.items()):
